@@ -1051,6 +1051,7 @@ func (cm *inMemoryCacheManager) DecReadersCount(ff *fsFile) {
 		cm.removePendingFileNolock(ff)
 	}
 	cm.cacheLock.Unlock()
+	verifPoint("fs.dec.unlocked")
 
 	if release {
 		ff.Release()
@@ -1083,11 +1084,13 @@ func (cm *inMemoryCacheManager) GetFileFromCache(cacheKind CacheKind, path []byt
 		ff.readersCount++
 	}
 	cm.cacheLock.Unlock()
+	verifPoint("fs.cache.got")
 
 	return ff, ok
 }
 
 func (cm *inMemoryCacheManager) SetFileToCache(cacheKind CacheKind, path []byte, ff *fsFile) *fsFile {
+	verifPoint("fs.cache.set")
 	cm.cacheLock.Lock()
 	if cm.closed {
 		ff.readersCount++
@@ -1119,6 +1122,7 @@ func (cm *inMemoryCacheManager) SetFileToCache(cacheKind CacheKind, path []byte,
 func (cm *inMemoryCacheManager) handleCleanCache(cleanStop chan struct{}) {
 	clean := func() {
 		filesToRelease := cm.cleanCache()
+		verifPoint("fs.clean.collected")
 		for _, ff := range filesToRelease {
 			ff.Release()
 		}
